@@ -123,7 +123,8 @@ impl fmt::Display for Display<'_> {
 
         self.unit.format_suffix(f, self.pluralize)?;
 
-        let mut power = (self.data.power * self.n) as u32;
+        // NB: `n` only flips the sign, wrap so that `i32::MIN` keeps its magnitude.
+        let mut power = self.data.power.wrapping_mul(self.n) as u32;
 
         if power != 1 {
             if power < 10 {
